@@ -1363,6 +1363,18 @@ func main() {
 		var rp struct {
 			Case Case `json:"case"`
 		}
+		var gp struct {
+			Case gateCase `json:"case"`
+		}
+		if json.Unmarshal(b, &gp) == nil && gp.Case.Family == "clock-gate" {
+			for i := 0; i < 5; i++ {
+				gcase := gp.Case
+				runClockGateCase(res, &gcase)
+			}
+			ck.finish()
+			res.Write(fl.Out)
+			return
+		}
 		if err := json.Unmarshal(b, &rp); err != nil || reflect.DeepEqual(rp.Case, Case{}) {
 			fmt.Fprintln(os.Stderr, "c09: replay file has no case:", err)
 			os.Exit(3)
@@ -1505,6 +1517,7 @@ func main() {
 		report(res, ck, runCase(c, g))
 	}
 	f64Differential(res, ck, r, 2000*mult)
+	runClockGateFamily(res, lib.NewRand(fl.Seed^0x6a7e), 80*mult)
 	ck.finish()
 	res.Note(fmt.Sprintf("wall %.1fs", time.Since(start).Seconds()))
 	res.Write(fl.Out)
